@@ -308,7 +308,7 @@ def replay(path):
 
 def main(tier, seed):
     t0 = time.time()
-    opts = {'examples': common.budget(tier, 150, 4000),
+    opts = {'examples': common.budget(tier, 450, 4000),
             'time_budget': common.budget(tier, 80, 1200)}
     results = runner.run_shards('mv.props.c18', 'shard_main', 16, seed, tier,
                                 opts)
